@@ -9,6 +9,8 @@ panic) is what the `wire` correspondence suite checks. The theorems below cover 
 frontier backwards.
 -/
 import ChitchatModel.Lemmas.Builder
+import ChitchatModel.Lemmas.ClusterWF
+import ChitchatModel.Lemmas.System
 import ChitchatModel.Props.C04
 namespace Chitchat
 
@@ -120,5 +122,143 @@ example (i : Id) :
 example :
     (NodeState.applyDelta {} ⟨0, 0, [⟨[1], [2], 5, .set⟩], 1⟩ 0) = .error .applyDeltaMaxVersion := by
   rfl
+
+open Node ClusterState NodeState
+
+/-- A message whose deltas are well formed (every decoded message is: `C09_decoded_msg_wf`). -/
+def MsgWF : Msg → Prop
+  | .syn _ _ => True
+  | .synAck _ d => ∀ p ∈ d.nodeDeltas, p.2.WF
+  | .ack d => ∀ p ∈ d.nodeDeltas, p.2.WF
+  | .badCluster => True
+
+/-- The reply budget of a SYN is computable: the node's own digest leaves at least 100 bytes. -/
+def SynBudgetOk (n : Node) (msg : Msg) (now : Nat) : Prop :=
+  match msg with
+  | .syn cid digest =>
+    cid = n.cfg.clusterId →
+      let n1 := n.updateSelfHeartbeat.reportHeartbeatsInDigest digest now
+      n.cfg.headerReserve + digestLen (n1.cs.computeDigest (n1.scheduledForDeletion now)) + 100 ≤ maxDatagram
+  | _ => True
+
+/-- **C09 (whole message handler).** `process_message` — heartbeat reports, delta application and
+the computation of the reply with its byte budget, block stream and builder — cannot abort on a
+well-formed cluster state and a well-formed message (every decoded message is one), whatever the
+digest claims, for any compressor and shuffle order; and it leaves the cluster state well formed. -/
+theorem C09_process_message_never_panics (C : Compressor) (n : Node) (msg : Msg) (now : Nat) (order : List Id)
+    (hcs : WFCluster n.cs) (hmsg : MsgWF msg) (hres : n.cfg.headerReserve + 100 ≤ maxDatagram)
+    (hbud : SynBudgetOk n msg now) :
+    ∃ r, n.processMessage C msg now order = .ok r ∧ WFCluster r.1.cs := by
+  have h0 := wf_updateSelfHeartbeat n hcs
+  unfold processMessage
+  cases msg with
+  | syn cid digest =>
+    simp only
+    split
+    · exact ⟨_, rfl, h0⟩
+    · rename_i hcid
+      have hcid' : cid = n.cfg.clusterId := by
+        simp only [cfg_updateSelfHeartbeat] at hcid
+        exact Classical.not_not.1 hcid
+      have hb := hbud hcid'
+      simp only at hb
+      have h1 := wf_reportHeartbeatsInDigest digest now _ h0
+      have hcfg : (n.updateSelfHeartbeat.reportHeartbeatsInDigest digest now).cfg = n.cfg := by
+        rw [cfg_reportHeartbeatsInDigest, cfg_updateSelfHeartbeat]
+      rw [hcfg]
+      rw [if_neg (by unfold maxDatagram at *; omega)]
+      obtain ⟨delta, hd⟩ := computeDelta_ok C _ h1 digest
+        (maxDatagram - n.cfg.headerReserve - digestLen
+          ((n.updateSelfHeartbeat.reportHeartbeatsInDigest digest now).cs.computeDigest
+            ((n.updateSelfHeartbeat.reportHeartbeatsInDigest digest now).scheduledForDeletion now)))
+        (by unfold maxDatagram at *; omega) (by unfold maxDatagram at *; omega)
+        ((n.updateSelfHeartbeat.reportHeartbeatsInDigest digest now).scheduledForDeletion now) order
+      rw [hd]
+      exact ⟨_, rfl, h1⟩
+  | synAck digest delta =>
+    simp only
+    have h1 := wf_reportHeartbeatsInDigest digest now _ h0
+    have hcfg : (n.updateSelfHeartbeat.reportHeartbeatsInDigest digest now).cfg = n.cfg := by
+      rw [cfg_reportHeartbeatsInDigest, cfg_updateSelfHeartbeat]
+    obtain ⟨r, hr⟩ := C04_cluster_apply_no_panic now delta.nodeDeltas (fun p hp => (hmsg p hp).leMax)
+      (n.updateSelfHeartbeat.reportHeartbeatsInDigest digest now).cs
+    have h2 := wfCluster_applyDelta now delta.nodeDeltas hmsg _ r h1 hr
+    obtain ⟨cs', b, evs⟩ := r
+    simp only [processDelta, hr]
+    have hall := fun sched => computeDelta_ok C cs' h2 digest (maxDatagram - n.cfg.headerReserve)
+      (by unfold maxDatagram at *; omega) (by unfold maxDatagram at *; omega) sched order
+    rw [hcfg]
+    generalize (Node.scheduledForDeletion _ now) = sched
+    obtain ⟨d, hd⟩ := hall sched
+    rw [hd]
+    exact ⟨_, rfl, h2⟩
+  | ack delta =>
+    simp only
+    obtain ⟨r, hr⟩ := C04_cluster_apply_no_panic now delta.nodeDeltas (fun p hp => (hmsg p hp).leMax)
+      n.updateSelfHeartbeat.cs
+    have h2 := wfCluster_applyDelta now delta.nodeDeltas hmsg _ r h0 hr
+    obtain ⟨cs', b, evs⟩ := r
+    simp only [processDelta, hr]
+    exact ⟨_, rfl, h2⟩
+  | badCluster => exact ⟨_, rfl, h0⟩
+
+/-! ### `WFCluster` is what every reachable node satisfies
+
+It holds initially and is preserved by every local write, by key GC, by the liveness pass (which
+only removes members) and — the theorem above — by every processed message. (The external catch-up
+`reset_node_state_if_update` installs application-supplied key-values; it preserves `WFCluster` only
+if the application supplies pairwise distinct versions, which is its contract.) -/
+
+theorem wfCopy_set (s : NodeState) (k v : Bytes) (h : WFCopy s) : WFCopy (s.set k v).1 := by
+  rcases set_is_ownerWrite s k v 0 h.leMax with e | e
+  · rw [e]; exact h
+  · rw [e]; exact wfCopy_ownerWriteExec s _ 0 h
+
+theorem wfCopy_delete (s : NodeState) (k : Bytes) (now : Nat) (h : WFCopy s) : WFCopy (s.delete k now) := by
+  rcases delete_is_ownerWrite s k now with e | e
+  · rw [e]; exact h
+  · rw [e]; exact wfCopy_ownerWriteExec s _ now h
+
+theorem C09_wf_init (cfg : Config) (initial : List (Bytes × Bytes)) : WFCluster (Node.init cfg initial).1.cs := by
+  unfold Node.init
+  simp only
+  apply wfCluster_setNode _ _ _ wfCluster_empty
+  have : ∀ (l : List (Bytes × Bytes)) (acc : NodeState × List Event), WFCopy acc.1 →
+      WFCopy (l.foldl (fun (acc : NodeState × List Event) kv =>
+        ((acc.1.set kv.1 kv.2).1, acc.2 ++ (acc.1.set kv.1 kv.2).2)) acc).1 := by
+    intro l
+    induction l with
+    | nil => intro acc h; exact h
+    | cons a t ih => intro acc h; simp only [List.foldl_cons]; exact ih _ (wfCopy_set _ _ _ h)
+  exact this initial _ (wfCopy_empty 1 0)
+
+theorem C09_wf_local_write (n : Node) (s' : NodeState) (h : WFCluster n.cs) (hs' : WFCopy s') :
+    WFCluster (n.cs.setNode n.cfg.selfId s') := wfCluster_setNode _ _ _ h hs'
+
+theorem C09_wf_gcKeys (n : Node) (now : Nat) (h : WFCluster n.cs) : WFCluster (n.gcKeys now).cs :=
+  wfCluster_gcKeys _ _ _ h
+
+theorem wf_foldl_remove (self : Id) (gone : List Id) :
+    ∀ cs : ClusterState, WFCluster cs →
+      WFCluster (gone.foldl (fun cs i => if i = self then cs else cs.removeNode i) cs) := by
+  induction gone with
+  | nil => intro cs h; exact h
+  | cons i t ih =>
+    intro cs h
+    simp only [List.foldl_cons]
+    apply ih
+    split
+    · exact h
+    · exact wfCluster_removeNode _ _ h
+
+theorem C09_wf_updateNodesLiveness (n : Node) (now : Nat) (h : WFCluster n.cs) :
+    WFCluster (n.updateNodesLiveness now).cs := by
+  unfold updateNodesLiveness gcDeadNodes
+  simp only
+  have hp : ((n.evalLiveness now).publishStep).cs = n.cs := by
+    unfold publishStep evalLiveness; split <;> rfl
+  rw [hp]
+  exact wf_foldl_remove _ _ _ h
+
 
 end Chitchat
